@@ -719,6 +719,9 @@ func (g *FuncGen) staticLen(v ssa.Value) int {
 
 func (g *FuncGen) ufun(name, sig string) string {
 	n := q(name)
+	if name == "str.byte" {
+		return n // declared by the prelude (with the bytes of literals) when used
+	}
 	if !g.declared[n] {
 		g.declared[n] = true
 		g.decls = append(g.decls, fmt.Sprintf("(declare-fun %s %s)", n, sig))
@@ -759,13 +762,35 @@ func (g *FuncGen) strCompare(op, a, b string) string {
 	}
 }
 
+// strExt: two strings of the same length and bytes are the same string
+// (byte-level model; emitted per compared pair, the inner quantifier is
+// existential after negation so no instantiation is needed).
+func (g *FuncGen) strExt(a, b string) {
+	k := "ext:" + a + "\x00" + b
+	if a == b || g.strAx[k] {
+		return
+	}
+	g.strAx[k] = true
+	g.assert(fmt.Sprintf("(=> (and (= (strlen %s) (strlen %s)) (forall ((i Int)) (=> (and (<= 0 i) (< i (strlen %s))) (= %s %s)))) (= %s %s))", a, b, a, g.strByte(a, "i"), g.strByte(b, "i"), a, b))
+}
+
 func (g *FuncGen) strConcat(a, b string) string {
 	if g.w.useStrings {
 		return fmt.Sprintf("(str.++ %s %s)", a, b)
 	}
 	f := g.ufun("str.concat", "(Str Str) Str")
 	t := fmt.Sprintf("(%s %s %s)", f, a, b)
+	if strings.Contains(t, "|sp:") || strings.Contains(t, "|rp:") {
+		g.bail("s_concat/s_substr cannot be used inside a spec function body (use a contract-level let)")
+	}
+	if g.strAx[t] {
+		return t
+	}
+	g.strAx[t] = true
 	g.assert(fmt.Sprintf("(= (strlen %s) (+ (strlen %s) (strlen %s)))", t, a, b))
+	// bytes of a concatenation
+	bt := g.strByte(t, "i")
+	g.assert(fmt.Sprintf("(forall ((i Int)) (! (=> (and (<= 0 i) (< i (strlen %s))) (= %s (ite (< i (strlen %s)) %s %s))) :pattern (%s)))", t, bt, a, g.strByte(a, "i"), g.strByte(b, fmt.Sprintf("(- i (strlen %s))", a)), bt))
 	return t
 }
 
@@ -775,7 +800,17 @@ func (g *FuncGen) strSubstr(s, lo, hi string) string {
 	}
 	f := g.ufun("str.sub", "(Str Int Int) Str")
 	t := fmt.Sprintf("(%s %s %s %s)", f, s, lo, hi)
+	if strings.Contains(t, "|sp:") || strings.Contains(t, "|rp:") {
+		g.bail("s_concat/s_substr cannot be used inside a spec function body (use a contract-level let)")
+	}
+	if g.strAx[t] {
+		return t
+	}
+	g.strAx[t] = true
 	g.assert(fmt.Sprintf("(= (strlen %s) (- %s %s))", t, hi, lo))
+	// bytes of a substring
+	bt := g.strByte(t, "i")
+	g.assert(fmt.Sprintf("(forall ((i Int)) (! (=> (and (<= 0 i) (< i (- %s %s))) (= %s %s)) :pattern (%s)))", hi, lo, bt, g.strByte(s, fmt.Sprintf("(+ %s i)", lo)), bt))
 	g.assert(fmt.Sprintf("(=> (and (= %s 0) (= %s (strlen %s))) (= %s %s))", lo, hi, s, t, s))
 	return t
 }
